@@ -624,6 +624,30 @@ Proof.
      apply under_nil_inv in U; subst; now elim N).
 Qed.
 
+(* media_dir with a link to a file outside, a dangling link whose parent exists, a link to a
+   directory and a link to its own parent: the copies are files / directories, the dangling one
+   is left out, nothing outside /proj/doc changes *)
+Definition w_fs_links : fs := of_list
+  [([], Dir); ([s "proj"], Dir); ([s "proj"; s "build"], Dir); ([s "proj"; s "doc"], Dir);
+   ([s "proj"; s "media"], Dir); ([s "proj"; s "media"; s "logo.png"], File 5);
+   ([s "proj"; s "media"; s "lnk_abs"], Link [s "other"; s "keep.txt"]);
+   ([s "proj"; s "media"; s "lnk_dangling"], Link [s "proj"; s "build"; s "manual.pdf"]);
+   ([s "proj"; s "media"; s "lnk_dir"], Link [s "other"]);
+   ([s "proj"; s "media"; s "loop"], Link [s "proj"; s "media"]);
+   ([s "other"], Dir); ([s "other"; s "keep.txt"], File 7)].
+
+Example copies_are_not_links_nonvacuous :
+  let o := CopyTree [s "proj"; s "media"] [s "proj"; s "doc"; s "media"] in
+  let g := run_op o w_fs_links in
+  g [s "proj"; s "doc"; s "media"; s "lnk_abs"] = Some (File 7) /\
+  g [s "proj"; s "doc"; s "media"; s "lnk_dir"; s "keep.txt"] = Some (File 7) /\
+  g [s "proj"; s "doc"; s "media"; s "lnk_dangling"] = None /\
+  g [s "proj"; s "build"; s "manual.pdf"] = None /\
+  g [s "proj"; s "doc"; s "media"; s "loop"; s "loop"; s "logo.png"] = Some (File 5) /\
+  touch_acts_on g [s "proj"; s "doc"; s "media"; s "lnk_abs"] = [s "proj"; s "doc"; s "media"; s "lnk_abs"] /\
+  touch_acts_on w_fs_links [s "proj"; s "media"; s "lnk_dangling"] = [s "proj"; s "build"; s "manual.pdf"].
+Proof. vm_compute. repeat split; reflexivity. Qed.
+
 Example name_filter_nonvacuous :
   name_ok (s "sub") = true /\ name_ok (s "a.md") = true /\ name_ok (s "..") = false /\
   name_ok (s ".hidden") = false /\ name_ok (s "a.md~") = false /\ name_ok (s "sub/../../x.md") = false /\
